@@ -101,4 +101,5 @@ Definition adder_safe (maxp : Z) (s : setter) (a : adder) : bool :=
 Definition cfg_safe (c : savecfg) : bool :=
   adder_safe (c_maxp c) (c_fset c) (c_dbl c) && adder_safe (c_maxp c) (c_dset c) (c_cpx c) &&
   (max_text 1 (a_dec (c_int c)) + 1 <=? a_const (c_int c)) && (a_coef (c_int c) =? 0) &&
+  forallb (fun i => match i with FE _ => false | _ => true end) (a_dec (c_int c)) &&
   match a_max (c_int c) with None => true | Some _ => false end.
